@@ -3005,6 +3005,7 @@ static void AssembleFile_InitPass(void) {
     SetFlag(&RelaxedMode, RelaxedName, DefRelaxedMode);
     SetIntConstRelaxedMode(DefRelaxedMode);
     SetFlag(&CompMode, CompModeName, DefCompMode);
+    SetFlag(&DottedStructs, DottedStructsName, False);
     strmaxcpy(TmpCompStr, NestMaxName, sizeof(TmpCompStr));
     EnterIntSymbol(&TmpComp, NestMax = DEF_NESTMAX, SegNone, True);
     CopyDefSymbols();
